@@ -122,6 +122,10 @@ func (e *Engine) verifyFunc(fn *ssa.Function) (res *FuncResult) {
 		for _, cl := range c.clauses("requires") {
 			x.assume(g, pre.evalClause(fn, cl, params, st, g))
 		}
+		for _, cl := range c.clauses("assumes") {
+			x.assume(g, pre.evalClause(fn, cl, params, st, g))
+			x.usedAssumptions["ASSUMED in contract of "+res.Func+": "+cl.Expr] = true
+		}
 		for _, cl := range c.clauses("fmtwhen") {
 			x.fmtHyp = append(x.fmtHyp, x.define("fmthyp", pre.evalClause(fn, cl, params, st, g)))
 		}
